@@ -10,7 +10,7 @@ wt = base + '/wt'
 out = base + '/out'
 dst = '/verif/seeded/%s' % pid
 confirm = None
-for f in ('/tmp/seed/confirm_batch1.txt', '/tmp/seed/confirm_batch2.txt', '/tmp/seed/confirm_batch3.txt', '/tmp/seed/confirm_batch4.txt', '/tmp/seed/confirm_batch5.txt', base + '/confirm.txt'):
+for f in ('/tmp/seed/confirm_batch1.txt', '/tmp/seed/confirm_batch2.txt', '/tmp/seed/confirm_batch3.txt', '/tmp/seed/confirm_batch4.txt', '/tmp/seed/confirm_batch5.txt', '/tmp/seed/confirm_batch6.txt', base + '/confirm.txt'):
     if os.path.exists(f):
         for line in open(f):
             if line.startswith(pid + ' '):
@@ -21,12 +21,26 @@ if not confirm or 'suite_with_change=PASS demo_with_change=FAIL demo_without_cha
 os.makedirs(dst, exist_ok=True)
 for f in os.listdir(out):
     shutil.copy(os.path.join(out, f), os.path.join(dst, f))
-# the diff actually present in the worktree (source only)
-d = subprocess.run(['git', '-C', wt, 'diff'], capture_output=True, text=True).stdout
+# the diff actually present in the worktree (source only), or a patch rebased onto /repo's current tree if one exists
+reb = base + '/rebased.diff'
+if os.path.exists(reb):
+    shutil.copy(os.path.join(dst, 'patch.diff'), os.path.join(dst, 'patch.orig.diff')) if os.path.exists(os.path.join(dst, 'patch.diff')) else None
+    d = open(reb).read()
+else:
+    d = subprocess.run(['git', '-C', wt, 'diff'], capture_output=True, text=True).stdout
 open(os.path.join(dst, 'patch.diff'), 'w').write(d)
+# run the checks against a scratch copy of /repo's CURRENT tree with the patch applied
+import tempfile
+scratch = tempfile.mkdtemp(prefix='seedkeep-')
+subprocess.check_call(['rsync', '-a', '--exclude', 'target', '--exclude', '.git', '/repo/', scratch + '/repo/'])
+subprocess.check_call(['git', 'init', '-q', '.'], cwd=scratch + '/repo')
+ap = subprocess.run(['git', 'apply', os.path.join(dst, 'patch.diff')], cwd=scratch + '/repo', capture_output=True, text=True)
+if ap.returncode != 0:
+    print('PATCH DOES NOT APPLY TO CURRENT /repo:', ap.stderr[:300])
+    sys.exit(1)
 fired = {}
 for p in [pid] + also:
-    r = subprocess.run(['/verif/check', p, '--tier', 'quick'], env=dict(os.environ, VERIF_REPO=wt), capture_output=True, text=True, cwd='/verif')
+    r = subprocess.run(['/verif/check', p, '--tier', 'quick'], env=dict(os.environ, VERIF_REPO=scratch + '/repo'), capture_output=True, text=True, cwd='/verif')
     rules = sorted(set(re.findall(r'\[(?:VIOLATED|UNRECOGNISED)\] (\S+)', r.stdout)))
     kinds = sorted(set(re.findall(r'\[(VIOLATED|UNRECOGNISED)\]', r.stdout)))
     fired[p] = {'exit': r.returncode, 'rules': rules, 'kinds': kinds}
@@ -37,10 +51,12 @@ meta = {
     'files_changed': sorted(set(re.findall(r'^diff --git a/(\S+)', d, re.M))),
     'needs_to_manifest': 'see notes.md',
     'confirmed_by_me': {'command': 'lib/confirm_seed.sh %s (full suite with change / demo with change / demo without change)' % pid, 'result': confirm},
-    'checks_run': {'command': 'VERIF_REPO=<scratch worktree with the change> ./check <id> --tier quick', 'result': fired},
+    'checks_run': {'command': 'VERIF_REPO=<scratch copy of /repo at its current commit with patch.diff applied> ./check <id> --tier quick', 'result': fired},
     'caught': any(v['exit'] != 0 for v in fired.values()),
 }
 json.dump(meta, open(os.path.join(dst, 'meta.json'), 'w'), indent=1)
 print(pid, 'kept; caught=%s' % meta['caught'], {k: v['rules'] for k, v in fired.items()})
+shutil.rmtree(scratch, ignore_errors=True)
 subprocess.run(['git', '-C', '/repo', 'worktree', 'remove', '--force', wt])
+subprocess.run(['git', '-C', '/verif', 'checkout', '-q', '--', 'evidence'])
 shutil.rmtree(base + '/aside', ignore_errors=True)
